@@ -1302,6 +1302,30 @@ def check_p2h(rec, case):
                                       "upper": float(upper[j]), "Tmin": Tmin, "Tmax": Tmax})
         if T is not None and Tmin == Tmax and n >= 2 and upper[-1] > 0:
             rec.maxi("p2h.iso_rel_gap", float((upper[-1] - z[-1]) / upper[-1]))
+        if T is not None and Tmin == Tmax and n >= 2:
+            # the isothermal column given as one number (python float, numpy scalar, 0-d array): an
+            # implementation may refuse it (the documentation asks for an array), but a returned height
+            # must follow the isothermal law like the array form
+            for form, conv in (("pyfloat", float), ("npfloat", np.float64), ("0d", np.array)):
+                rec.ev()
+                try:
+                    with np.errstate(all="ignore"):
+                        zs = np.asarray(atm.pressure2height(p.copy(), conv(Tmin)), dtype=float)
+                except ContractBreach:
+                    raise
+                except Exception:
+                    rec.count("p2h.scalar_T_refused")
+                    continue
+                rec.count("p2h.scalar_T_calls")
+                badm = ~((zs <= upper) & (zs >= lower)) if zs.shape == p.shape else np.array([True])
+                if badm.any():
+                    j = int(np.argmax(badm))
+                    rec.violation("p2h-isothermal", dict(case, scalar_T=form),
+                                  {"index": j, "scalar_T": form, "T": Tmin,
+                                   "z": float(zs.ravel()[j]) if zs.size > j else None,
+                                   "z_array_form": float(z[j]), "lower": float(lower[j]),
+                                   "upper": float(upper[j]), "got_shape": list(zs.shape)})
+                    break
         # strictly increasing
         L = cm.layer_logs(p)
         inc_lo = np.asarray(LD(Rd * Tmin / G0) * (L - L ** 3 / 12), dtype=float)
